@@ -99,29 +99,36 @@ theorem untar_stops_at_first_error (dest : Path) (fs : FS) (earlier : List Membe
     untarFrom dest fs earlier (m :: ms) = (fs, some (Stop.filter why)) := by
   rw [untarFrom, h]
 
-/-- PARTIAL (one component; see `member_never_escapes` for where ANY member lands) — a regular file with a plain one-component
-  name is always extracted, at dest/name, with its content, whatever the tree holds elsewhere (link-free trees) -/
-theorem benign_file_extracted_partial (dest : Path) (fs : FS) (m : Member) (hl : LinkFree fs) (hk : m.kind = Kind.file)
-    (c : String) (hn0 : ".." ∉ split m.name) (hn : split (stripSlashes m.name) = [c]) (hc : c ≠ "" ∧ c ≠ "." ∧ c ≠ "..")
-    (hfree : lookup fs [c] = none) :
-    ∀ earlier, extractMember dest fs earlier m = Verdict.ok (setNode fs [c] (Node.file m.content)) := by
-  intro earlier
-  have hr : realpath dest fs FUEL dest [c] = some (dest ++ [c]) := by
-    show realpath dest fs (199 + 1) dest [c] = _
-    rw [realpath_linkfree_step dest fs hl 199 dest c [] hc]
-    rfl
-  have hkr : kresolve dest fs FUEL dest [] = some dest := rfl
-  have hself : isPrefix dest dest = true := isPrefix_refl dest
-  have hdir : isDirAt dest fs dest = true := by simp [isDirAt, hself, rel, lookup]
-  have hex : existsAbs dest fs (dest ++ [c]) = none := by simp [existsAbs, isPrefix_append, rel, hfree]
-  have hs : strictInside dest (dest ++ [c]) = true := by simp [strictInside, isPrefix_append]
-  have hcd : ".." ∉ [c] := by simp; exact fun e => hc.2.2 e.symm
-  have hcd2 : ¬ ".." = c := fun e => hc.2.2 e.symm
-  unfold extractMember
-  dsimp only
-  simp only [hn, hr]
-  simp only [isPrefix_append, Bool.not_true, Bool.false_eq_true, if_false, hk]
-  simp only [placeMember, walkUpper, List.dropLast_singleton, hkr, hdir, placeFinal, List.getLast?_singleton, Option.getD_some]
-  simp [hc.1, hc.2.1, hc.2.2, hex, writeAt, hs, rel, hn0, hcd2, hk]
+/-- BENIGN MEMBERS ARE EXTRACTED, one member: a regular file with a plain relative name of any depth (no empty, `.` or `..`
+  component), in a link-free tree where no regular file stands on the way and the destination is not a directory, is
+  extracted — the file is there with its content, the missing parent directories have been made, every other path holds what
+  it held -/
+theorem benign_member_extracted (dest : Path) (fs : FS) (hl : LinkFree fs) (earlier : List Member) (m : Member)
+    (hb : BenignFile m)
+    (hnf : ∀ x, isPrefix x (pathOf m) = true → x ≠ [] → x ≠ pathOf m → ∀ k, lookup fs x ≠ some (Node.file k))
+    (htd : lookup fs (pathOf m) ≠ some Node.dir) :
+    ∃ fs', extractMember dest fs earlier m = Verdict.ok fs' ∧ lookup fs' (pathOf m) = some (Node.file m.content) ∧
+      (∀ q, isPrefix q (pathOf m) = false → lookup fs' q = lookup fs q) ∧
+      (∀ q, isPrefix q (pathOf m) = true → q ≠ pathOf m → lookup fs' q = some Node.dir) := by
+  obtain ⟨hk, hn0, hne, hp, hlen⟩ := hb
+  obtain ⟨fs', h1, h2, _, h4, h5⟩ := benign_member (dest := dest) hl earlier m hk (pathOf m) hn0 rfl hne hp hlen hnf htd
+  exact ⟨fs', h1, h2, h4, h5⟩
+
+/-- BENIGN ARCHIVES ARE EXTRACTED ENTIRELY: an archive of regular files with plain relative names, no name being another
+  one or lying below another one, unpacked into an empty install directory: extraction ends without error and EVERY member
+  is there with its content — for any number of members and any nesting depth (below the fuel of `realpath`).
+  PARTIAL with respect to the property's "benign archive": directory members and repeated names are not covered by this
+  theorem (the oracle checks them on the real extraction); permissions are outside the model. -/
+theorem benign_archive_extracted (dest : Path) (ms : List Member) (hb : ∀ m ∈ ms, BenignFile m) (hpw : ms.Pairwise Apart) :
+    ∃ fs', untar dest [] ms = (fs', none) ∧ ∀ m ∈ ms, lookup fs' (pathOf m) = some (Node.file m.content) := by
+  have h0 : BenignTree [] [] := by
+    refine ⟨fun e he => by simp at he, fun q k hq => ?_, fun q hq0 hq => ?_⟩
+    · unfold lookup at hq; split at hq <;> simp at hq
+    · unfold lookup at hq
+      split at hq
+      · rename_i hqe; exact absurd (List.isEmpty_iff.mp hqe) hq0
+      · simp at hq
+  obtain ⟨fs', h1, h2, _⟩ := benign_untarFrom (dest := dest) ms [] [] [] h0 hb (fun d hd => by simp at hd) hpw
+  exact ⟨fs', h1, h2⟩
 
 end Kapture.C18
